@@ -183,7 +183,18 @@ func runC03(c *kc.Ctx) {
 				st := &progState{pts: map[string]kyber.Point{}, scs: map[string]kyber.Scalar{}}
 				ok := true
 				for _, s := range p.stmts {
-					if kc.Recover(func() string { st.exec(g, s, true); return "" }) == "panic" {
+					if kc.Recover(func() string {
+						st.exec(g, s, true)
+						// every intermediate value is encoded once (and the bytes thrown away) before the object is
+						// possibly reused as a destination: encoding is a read, it leaves nothing behind that a later
+						// in-place update could miss
+						if s.dst[0] == 'p' {
+							_, _ = st.pts[s.dst].MarshalBinary()
+						} else {
+							_, _ = st.scs[s.dst].MarshalBinary()
+						}
+						return ""
+					}) == "panic" {
 						ok = false
 						break
 					}
